@@ -4,7 +4,9 @@ Confirms a seeded change independently: demo passes on the clean worktree, fails
 repository's test suite passes with the patch (cmake -DENABLE_LIBLCB_TESTS=1). Writes confirm.json into the change dir."""
 import json, os, re, subprocess, sys, shutil
 d, wt = sys.argv[1], sys.argv[2]
-run_tests = "--tests" in sys.argv
+run_tests = any(a.startswith("--tests") for a in sys.argv)
+test_re = [a.split("=",1)[1] for a in sys.argv if a.startswith("--tests=")]
+ctest_sel = ("-R '%s'" % test_re[0]) if test_re else ""
 demo = os.path.join(d, "demo.c")
 sh = os.path.join(d, "demo.sh")
 def demo_cmd():
@@ -40,9 +42,10 @@ r1 = run(cmd, timeout=900)
 res["patched_rc"] = r1.returncode
 res["patched_tail"] = (r1.stdout + r1.stderr)[-300:]
 if run_tests:
-    b = run("cd %s && cmake -G Ninja -B _build -DENABLE_LIBLCB_TESTS=1 >/dev/null 2>&1 && cmake --build _build 2>&1 | tail -3 && ctest --test-dir _build -j8 --timeout 900 2>&1 | tail -4" % wt, timeout=3000)
+    b = run("cd %s && cmake -G Ninja -B _build -DENABLE_LIBLCB_TESTS=1 >/dev/null 2>&1 && cmake --build _build 2>&1 | tail -3 && ctest --test-dir _build -j8 --timeout 2400 %s 2>&1 | tail -4" % (wt, ctest_sel), timeout=3000)
     res["tests_tail"] = (b.stdout + b.stderr)[-500:]
     res["tests_pass"] = "100% tests passed" in b.stdout
+    res["tests_selected"] = test_re[0] if test_re else "all"
     shutil.rmtree(os.path.join(wt, "_build"), ignore_errors=True)
 run("git -C %s checkout -- ." % wt)
 res["confirmed"] = (res["clean_rc"] == 0 and res["apply_rc"] == 0 and res["patched_rc"] != 0 and (not run_tests or res.get("tests_pass")))
